@@ -130,8 +130,8 @@ def handle (j : Json) : Json :=
   let out := outcome cm
   let kinds := (ops.map (fun o => kindStr o.kind)).foldl (fun acc k => insertSorted k acc) []
   let multi := cm.g ≥ 2
-  let branches :=
-    kinds.map (fun k => s!"kind.{k}") ++ (if multi then pairs kinds else []) ++
+  let branches := if !multi then [] else
+    kinds.map (fun k => s!"kind.{k}") ++ pairs kinds ++
     (if multi && ops.any (fun o => validates o.kind && !o.patterns.isEmpty) then ["pattern.cacheFill"] else []) ++
     (if multi && ops.any (fun o => validates o.kind && o.arrays) then ["unique.lazyInit"] else []) ++
     (if multi && ops.any (fun o => o.kind = .gen) then ["typeinfo.cacheFill"] else []) ++
